@@ -21,6 +21,14 @@ func main() {
 		}
 		return
 	}
+	if os.Args[1] == "__hidden" {
+		f, ok := props.Hidden[os.Args[2]]
+		if !ok {
+			fmt.Fprintln(os.Stderr, "unknown hidden body", os.Args[2])
+			os.Exit(2)
+		}
+		os.Exit(f())
+	}
 	id := os.Args[1]
 	p, ok := props.Get(id)
 	if !ok {
